@@ -103,3 +103,20 @@ package executable
 //@   ghostvar told int = 0
 //@   on send * : assert told == 0 && value != nil && (value.transitionError == nil && walkEvt(cmd.Event) ==> value.newState == cmd.Destination) ; told = 1
 //@   ensures told == 1
+
+// ---------------------------------------------------------------------------------------------------------
+// C17: the reaper of a basic task reports the end of the child once, with the final state a kill request left for it if
+// there is one (KILLED), otherwise FAILED iff Wait returned an error, else FINISHED.
+//@ closure (*basicTaskBase).startBasicTask #3
+//@   property C17
+//@   ghostvar waited bool = false
+//@   ghostvar werr bool = false
+//@   ghostvar took bool = false
+//@   ghostvar pv mesos.TaskState = mesos.TASK_FINISHED
+//@   ghostvar stored int = 0
+//@   ghostvar sent int = 0
+//@   on aftercall (*exec.Cmd).Wait : assert !waited ; waited = true ; werr = (result != nil)
+//@   on select * : assert waited ; took = (index == 0) ; pv = value0
+//@   on store event.BasicTaskTerminated.FinalMesosState : assert waited && stored == 0 && (took ==> value == pv) && (!took ==> value == (if werr then mesos.TASK_FAILED else mesos.TASK_FINISHED)) ; stored = 1
+//@   on call field.taskBase.sendDeviceEvent : assert stored == 1 && sent == 0 ; sent = 1
+//@   ensures sent <= 1 && waited
